@@ -27,6 +27,11 @@
 //	maxrecv   MAX-RCV-SIZE sequences set on the socket / the endpoint before and after the endpoint was
 //	          started: every connection made after an accepted Set delivers what is under the limit and
 //	          drops what is over it
+//	propagate a socket-level endpoint option (RECONNECT-TIME, MAX-RECONNECT-TIME, DIAL-ASYNCH, MAX-RCV-SIZE) accepted by
+//	          the socket is what every dialer that exists already (and, for MAX-RCV-SIZE, listener) then returns; over
+//	          vt the accepted DIAL-ASYNCH / RECONNECT-TIME decide what that dialer's Dial and redial do
+//	ctxq      a READQ-LEN accepted by the socket is the number of messages a SUB / SURVEYOR context opened
+//	          afterwards holds while nobody receives
 package c19
 
 import (
@@ -165,6 +170,12 @@ func caseList(r *mon.Runner) []mon.CaseSpec {
 	for _, s := range maxrecvPlans(r, rnd) {
 		add(s)
 	}
+	for _, s := range propagatePlans(r, rnd) {
+		add(s)
+	}
+	for _, s := range ctxqPlans(r, rnd) {
+		add(s)
+	}
 	return cases
 }
 
@@ -204,6 +215,10 @@ func TestC19(t *testing.T) {
 			runSubs(c, sp)
 		case "maxrecv":
 			runMaxRecv(c, sp)
+		case "propagate":
+			runPropagate(c, sp)
+		case "ctxq":
+			runCtxQ(c, sp)
 		default:
 			panic("unknown case kind " + sp.Kind)
 		}
